@@ -6,7 +6,7 @@ import _thread
 import os
 
 from .kernel import HarnessError
-from .sio import Pipe, RFile, WFile
+from .sio import Pipe, RawWFile, RFile, WFile
 
 SIGINT, SIGKILL, SIGTERM, SIGSTOP, SIGCONT = 2, 9, 15, 19, 18
 
@@ -67,7 +67,7 @@ class SimProcess:
 
 
 class SimPopen:
-    def __init__(self, world, parent, args, stdin=None, stdout=None):
+    def __init__(self, world, parent, args, stdin=None, stdout=None, bufsize=-1):
         from . import boot
 
         s = world.sched
@@ -85,7 +85,8 @@ class SimPopen:
         world.name_process(child, args)
         to_child = Pipe(world, cap, f"{n}.{child.name}.in")
         from_child = Pipe(world, cap, f"{n}.{child.name}.out")
-        self.stdin = WFile(to_child, parent)
+        # bufsize=0: the pipe ends are raw files - one write() is one write(2), no buffer and no lock
+        self.stdin = (RawWFile if bufsize == 0 else WFile)(to_child, parent)
         self.stdout = RFile(from_child, parent)
         child_in = RFile(to_child, child)
         child_out = WFile(from_child, child)
@@ -134,8 +135,11 @@ class SubprocessModule:
         self.world = world
         self.proc = proc
 
-    def Popen(self, args, stdin=None, stdout=None, **kw):
-        return SimPopen(self.world, self.proc, args, stdin, stdout)
+    def Popen(self, args, stdin=None, stdout=None, bufsize=-1, **kw):
+        unknown = set(kw) - {"close_fds", "universal_newlines", "text", "shell", "stderr", "env", "cwd"}
+        if unknown or kw.get("shell") or kw.get("text") or kw.get("universal_newlines"):
+            raise HarnessError(f"subprocess.Popen called with arguments the simulated kernel does not model: {sorted(kw)}")
+        return SimPopen(self.world, self.proc, args, stdin, stdout, bufsize=bufsize)
 
 
 # ---------------------------------------------------------------------------
